@@ -246,6 +246,7 @@ func monitor(s *vdrv.Scenario, h *vdrv.History, fin string, aborted string) stri
 			}
 		case "i":
 			tr := &trav{t: c.t, start: c.inv, end: ret}
+			delete(lastNext, c.t) // a fresh iterator has no last-returned element
 			cur[c.t] = tr
 			travs = append(travs, tr)
 		case "n":
